@@ -913,6 +913,7 @@ func main() {
 	w("def wgCountsPM : Bool := %v", contains(wgClasses, "pm"))
 	w("def wgCountsPath : Bool := %v", contains(wgClasses, "path"))
 	w("")
+	emitLocks(w, lockTable(*repo))
 	w("end MtxVerif.Gen.C40")
 
 	dst := filepath.Join(*out, "MtxVerif/Gen/C40.lean")
